@@ -979,6 +979,49 @@ def ac9_connected_copies(fc: FnCls, R: RuleResult) -> int:
                       "gradient loses its dependence on `%s` (use .clone().requires_grad_(), or guard with `not torch.is_grad_enabled()`)" % ast.unparse(e), what=what)
             else:
                 R.ok(bw.fq, what + (" (detached only when the graph is not recorded)" if "detach" in chain else ""))
+    # plain detaches (no requires_grad_ on top): the detached value must not reach a differentiable computation of the recorded backward -
+    # an argument of a nested functional / Function.apply / the user's function, or the returned gradients
+    for c in ast.walk(bw.node):
+        if not (isinstance(c, ast.Call) and isinstance(c.func, ast.Attribute) and c.func.attr == "detach" and not c.args):
+            continue
+        par = getattr(c, "_parent", None)
+        if isinstance(par, ast.Attribute) and par.attr == "requires_grad_":
+            continue                 # decided above
+        st = enclosing_stmt(c)
+        if not (isinstance(st, ast.Assign) and len(st.targets) == 1 and isinstance(st.targets[0], ast.Name)):
+            continue
+        n += 1
+        what = "%s: a detached value" % norm_stmt(st, 70)
+        if _under_not_grad_enabled(c, bw.node, flags):
+            R.ok(bw.fq, what + " (only when the graph is not recorded)")
+            continue
+        tainted = {st.targets[0].id}
+        changed = True
+        while changed:
+            changed = False
+            for a in ast.walk(bw.node):
+                if isinstance(a, ast.Assign) and len(a.targets) == 1 and isinstance(a.targets[0], ast.Name) and a.targets[0].id not in tainted \
+                        and any(isinstance(x, ast.Name) and x.id in tainted for x in ast.walk(a.value)):
+                    tainted.add(a.targets[0].id)
+                    changed = True
+        sink = None
+        for k in ast.walk(bw.node):
+            if isinstance(k, ast.Call) and k is not c:
+                fn = ast.unparse(k.func)
+                nested = fn.endswith(".apply") or fn.split(".")[-1].lstrip("_") in ("mcquad", "quad", "solve_ivp", "solve", "rootfinder", "equilibrium", "minimize", "symeig", "jac", "hess") \
+                    or (isinstance(k.func, ast.Name) and ("fcn" in k.func.id or "func" in k.func.id))
+                if nested and any(isinstance(x, ast.Name) and x.id in tainted for a_ in list(k.args) + [kw.value for kw in k.keywords] for x in ast.walk(a_)):
+                    sink = k
+                    break
+            if isinstance(k, ast.Return) and k.value is not None and any(isinstance(x, ast.Name) and x.id in tainted for x in ast.walk(k.value)):
+                sink = k
+                break
+        if sink is not None:
+            R.bad(bw, st, "a value detached in backward (`%s`) reaches `%s`: when the backward pass is recorded (create_graph=True) the gradient loses its dependence "
+                  "on it and second derivatives silently miss terms (detach only under `not torch.is_grad_enabled()`)" % (
+                      ast.unparse(c)[:40], ast.unparse(sink)[:60].split("\n")[0]), what=what)
+        else:
+            R.ok(bw.fq, what + " that reaches no nested differentiable call and no returned gradient")
     return n
 
 
